@@ -6,6 +6,7 @@ mod util;
 mod padalloc;
 mod mstsc_mod;
 mod blit;
+mod guiloop;
 
 #[global_allocator]
 static GLOBAL: padalloc::Padded = padalloc::Padded;
@@ -15,6 +16,7 @@ use std::io::{self, BufRead, Write};
 fn dispatch(op: &str, args: &[&str]) -> String {
     match op {
         "blit" => blit::op_blit(args),
+        "gui" => guiloop::op_gui(args),
         _ => format!("unknown-op:{}", op),
     }
 }
@@ -22,15 +24,23 @@ fn dispatch(op: &str, args: &[&str]) -> String {
 fn main() {
     util::silence_panics();
     let stdin = io::stdin();
-    let stdout = io::stdout();
-    let mut out = io::BufWriter::new(stdout.lock());
+    // The code under test prints diagnostics on stdout, from its own threads and possibly in a
+    // loop (C20): result lines go to a private duplicate of fd 1, fd 1 itself is pointed at /dev/null.
+    let mut stdout = unsafe {
+        use std::os::unix::io::FromRawFd;
+        let keep = libc::dup(1);
+        let null = libc::open(b"/dev/null\0".as_ptr() as *const libc::c_char, libc::O_WRONLY);
+        if keep < 0 || null < 0 || libc::dup2(null, 1) < 0 { panic!("cannot redirect stdout"); }
+        libc::close(null);
+        std::fs::File::from_raw_fd(keep)
+    };
     for line in stdin.lock().lines() {
         let line = line.unwrap();
         let line = line.trim();
         if line.is_empty() || line.starts_with('#') { continue; }
         let toks: Vec<&str> = line.split_whitespace().collect();
         let r = dispatch(toks[0], &toks[1..]);
-        writeln!(out, "@@ {}", r).unwrap();
-        out.flush().unwrap();
+        writeln!(stdout, "@@ {}", r).unwrap();
+        stdout.flush().unwrap();
     }
 }
